@@ -279,3 +279,128 @@ Definition w_readfrom (src : script) (s : writer) : Z * Z * writer :=
       if e =? 1 then (if avail s1 =? 0 then w_flush s1 else (0, s1)) else (e, s1) in
     (n, e', w_add_total s2 n)
   end.
+
+(* ------------------------------------------------------------------ runes (UTF-8, as unicode/utf8 of Go) *)
+Definition is_cont (b : Z) : bool := (128 <=? b) && (b <=? 191).
+(* accept range of the second byte, by first byte *)
+Definition second_ok (b0 b1 : Z) : bool :=
+  if b0 =? 224 then (160 <=? b1) && (b1 <=? 191)
+  else if b0 =? 237 then (128 <=? b1) && (b1 <=? 159)
+  else if b0 =? 240 then (144 <=? b1) && (b1 <=? 191)
+  else if b0 =? 244 then (128 <=? b1) && (b1 <=? 143)
+  else is_cont b1.
+(* bytes needed by the first byte: 1 for ASCII and for invalid first bytes *)
+Definition rune_need (b0 : Z) : Z :=
+  if (194 <=? b0) && (b0 <=? 223) then 2
+  else if (224 <=? b0) && (b0 <=? 239) then 3
+  else if (240 <=? b0) && (b0 <=? 244) then 4
+  else 1.
+Definition rune_error : Z := 65533.
+(* utf8.DecodeRune on a non-empty window: (rune, size) *)
+Definition decode_rune (w : bytes) : Z * Z :=
+  match w with
+  | [] => (rune_error, 1)
+  | b0 :: t =>
+    if b0 <? 128 then (b0, 1)
+    else if rune_need b0 =? 2 then
+      match t with
+      | b1 :: _ => if is_cont b1 then ((b0 - 192) * 64 + (b1 - 128), 2) else (rune_error, 1)
+      | _ => (rune_error, 1)
+      end
+    else if rune_need b0 =? 3 then
+      match t with
+      | b1 :: b2 :: _ =>
+        if second_ok b0 b1 && is_cont b2 then ((b0 - 224) * 4096 + (b1 - 128) * 64 + (b2 - 128), 3) else (rune_error, 1)
+      | _ => (rune_error, 1)
+      end
+    else if rune_need b0 =? 4 then
+      match t with
+      | b1 :: b2 :: b3 :: _ =>
+        if second_ok b0 b1 && is_cont b2 && is_cont b3
+        then ((b0 - 240) * 262144 + (b1 - 128) * 4096 + (b2 - 128) * 64 + (b3 - 128), 4) else (rune_error, 1)
+      | _ => (rune_error, 1)
+      end
+    else (rune_error, 1)
+  end.
+(* utf8.FullRune *)
+Definition full_rune (w : bytes) : bool :=
+  match w with
+  | [] => false
+  | b0 :: t =>
+    if rune_need b0 <=? blen w then true
+    else match t with
+         | [] => false
+         | b1 :: t2 =>
+           if negb (second_ok b0 b1) then true
+           else match t2 with [] => false | b2 :: _ => negb (is_cont b2) end
+         end
+  end.
+(* utf8.EncodeRune / string(rune) *)
+Definition encode_rune (r : Z) : bytes :=
+  if (0 <=? r) && (r <? 128) then [r]
+  else if (0 <=? r) && (r <? 2048) then [192 + r / 64; 128 + r mod 64]
+  else if (r <? 0) || (1114111 <? r) || ((55296 <=? r) && (r <=? 57343)) then [239; 191; 189]
+  else if r <? 65536 then [224 + r / 4096; 128 + (r / 64) mod 64; 128 + r mod 64]
+  else [240 + r / 262144; 128 + (r / 4096) mod 64; 128 + (r / 64) mod 64; 128 + r mod 64].
+
+(* ReadRune: the reader state is extended by b.lastRuneSize (lrs), kept beside the record.
+   result (rune, size, err, state, lastRuneSize) *)
+Fixpoint rd_rune_fill (fuel : nat) (s : reader) {struct fuel} : reader :=
+  match fuel with
+  | O => s
+  | S f =>
+    if (rw s <? rr s + 4) && negb (full_rune (window s)) && (rerr s =? 0) then rd_rune_fill f (fill s) else s
+  end.
+Definition rd_rune (s : reader) : Z * Z * Z * reader * Z :=
+  let s1 := rd_rune_fill (rfuel s) s in
+  if rr s1 =? rw s1 then (0, 0, rerr s1, set_err s1 0, -1)
+  else
+    let c := nth (Z.to_nat (rr s1)) (rbuf s1) 0 in
+    let '(r, size) := if c <? 128 then (c, 1) else decode_rune (window s1) in
+    let d := sub (rbuf s1) (rr s1) (rr s1 + size) in
+    (r, size, 0, advance s1 (rr s1 + size) (last d 0) size, size).
+(* UnreadRune *)
+Definition rd_unread_rune (s : reader) (lrs : Z) : Z * reader * Z :=
+  if (lrs <? 0) || (rr s =? 0) then (6, s, lrs)
+  else (0, mkR (rbuf s) (rr s - lrs) (rw s) (rerr s) (-1)
+              (if lrs <=? rtotal s then rtotal s - lrs else rtotal s) (rsrc s) (rpulled s), -1).
+
+(* WriteTo when the underlying reader is an io.WriterTo: after the buffered bytes, the source writes everything it
+   still has (its whole remaining script; its error is that of the first failing chunk) *)
+Fixpoint src_drain (s : script) : bytes * Z * script :=
+  match s with
+  | [] => ([], 0, [])
+  | (d, e) :: rest =>
+    if e =? 0 then let '(d2, e2, r2) := src_drain rest in (d ++ d2, e2, r2)
+    else (d, (if e =? 1 then 0 else e), rest)
+  end.
+Definition rd_writeto_wt (s : reader) : bytes * Z * reader :=
+  let s0 := mkR (rbuf s) (rr s) (rw s) (rerr s) (-1) (rtotal s) (rsrc s) (rpulled s) in
+  let '(out, s1) := write_buf [] s0 in
+  let '(d, e, rest) := src_drain (rsrc s1) in
+  (* since the fix: if m > 0 && b.r == b.w { b.r, b.w = 0, 0 }  (write_buf into bytes.Buffer always leaves r = w) *)
+  let z := (0 <? blen d) && (rr s1 =? rw s1) in
+  (out ++ d, e, mkR (rbuf s1) (if z then 0 else rr s1) (if z then 0 else rw s1) (rerr s1) (rlast s1)
+                    (rtotal s1 + blen d) rest (rpulled s1 + blen d)).
+
+(* WriteRune *)
+Definition w_write_rune (r : Z) (s : writer) : Z * Z * writer :=
+  if r <? 128 then   (* also negative runes: byte(r) *)
+    let '(e, s1) := w_write_byte (r mod 256) s in if negb (e =? 0) then (0, e, s1) else (1, 0, s1)
+  else if negb (werr s =? 0) then (0, werr s, s)
+  else
+    let enc := encode_rune r in
+    if avail s <? 4 then
+      let '(_, s1) := w_flush s in
+      if negb (werr s1 =? 0) then (0, werr s1, s1)
+      else if avail s1 <? 4 then w_write_string enc s1
+      else (blen enc, 0, w_add_total (w_set s1 (wbuf s1 ++ enc) (werr s1)) (blen enc))
+    else (blen enc, 0, w_add_total (w_set s (wbuf s ++ enc) (werr s)) (blen enc)).
+
+(* ReadFrom when the underlying writer is an io.ReaderFrom and nothing is buffered: the sink reads everything *)
+Definition w_readfrom_rf (src : script) (s : writer) : Z * Z * writer :=
+  match wbuf s with
+  | [] => let '(d, e, _) := src_drain src in
+          (blen d, e, mkW [] (wcap s) (werr s) (wtotal s + blen d) (wsink s) (wout s ++ d))
+  | _ => w_readfrom src s
+  end.
